@@ -105,6 +105,12 @@ func ioctl(fd uintptr, req uintptr, arg unsafe.Pointer) error {
 // RunPTY runs bin under a pseudo-terminal with the given height, feeding the
 // input text, and returns everything the program wrote.
 func RunPTY(bin string, args []string, rows, cols int, input string, timeout time.Duration) (*Result, error) {
+	return RunPTYOpt(bin, args, rows, cols, input, timeout, false)
+}
+
+// RunPTYOpt is RunPTY; with noEcho the terminal does not echo the typed input, so the
+// captured text is exactly what the program wrote.
+func RunPTYOpt(bin string, args []string, rows, cols int, input string, timeout time.Duration, noEcho bool) (*Result, error) {
 	ptmx, err := os.OpenFile("/dev/ptmx", os.O_RDWR|syscall.O_NOCTTY, 0)
 	if err != nil {
 		return nil, err
@@ -126,6 +132,18 @@ func RunPTY(bin string, args []string, rows, cols int, input string, timeout tim
 	if err := ioctl(ptmx.Fd(), 0x5414, unsafe.Pointer(&ws)); err != nil { // TIOCSWINSZ
 		slave.Close()
 		return nil, err
+	}
+	if noEcho {
+		var t syscall.Termios
+		if err := ioctl(slave.Fd(), 0x5401, unsafe.Pointer(&t)); err != nil { // TCGETS
+			slave.Close()
+			return nil, err
+		}
+		t.Lflag &^= 0x8                                                       // ECHO
+		if err := ioctl(slave.Fd(), 0x5402, unsafe.Pointer(&t)); err != nil { // TCSETS
+			slave.Close()
+			return nil, err
+		}
 	}
 	ctx, cancel := context.WithTimeout(context.Background(), timeout)
 	defer cancel()
